@@ -1266,6 +1266,111 @@ def k(x: bytes32) -> (bytes32, bytes4, uint256):
     return x & m, convert(x, bytes4), convert(x, uint256) % (2**255 - 19)
 ''')
 
+# a ternary whose arms are memory-typed values (a pointer phi at the join), the result stored / iterated / passed on:
+# BasePtrAnalysis must keep the facts of the phi wherever it is live (fixed in 22a36b2: DSE deleted one arm's initialisation)
+_add("ternary_memory", '''
+sa: public(uint256[3])
+sb: public(Bytes[64])
+ss: public(String[40])
+ta: transient(uint256[3])
+ma: public(HashMap[uint256, uint256[3]])
+mb: public(HashMap[uint256, Bytes[64]])
+dyn: public(DynArray[uint256, 4])
+
+@internal
+@pure
+def _sum(a: uint256[3]) -> uint256:
+    return a[0] + 2 * a[1] + 3 * a[2]
+
+@internal
+@pure
+def _blen(b: Bytes[64]) -> uint256:
+    return len(b) * 1000 + convert(slice(concat(b, b"x"), 0, 1), uint256)
+
+@external
+def set_arr(b: bool, p: uint256[3], q: uint256[3]) -> uint256:
+    self.sa = p if b else q
+    return self.sa[0] + self.sa[2]
+
+@external
+def set_arr_mem(b: bool, x: uint256) -> uint256:
+    p: uint256[3] = [x, x // 2, x // 3]
+    q: uint256[3] = [7, 8, 9]
+    self.sa = p if b else q
+    return self.sa[0] + self.sa[1] * 16 + self.sa[2] * 256
+
+@external
+def set_bytes(b: bool, p: Bytes[64], q: Bytes[64]) -> uint256:
+    self.sb = p if b else q
+    return len(self.sb)
+
+@external
+def set_bytes_mem(b: bool, x: uint256) -> Bytes[64]:
+    p: Bytes[64] = concat(convert(x, bytes32), b"left")
+    q: Bytes[64] = b"right arm"
+    self.sb = p if b else q
+    return self.sb
+
+@external
+def set_string(b: bool) -> String[40]:
+    p: String[40] = "the left arm of the ternary"
+    q: String[40] = "right"
+    self.ss = p if b else q
+    return self.ss
+
+@external
+def set_transient(b: bool, x: uint256) -> uint256:
+    p: uint256[3] = [x, x // 2 + 1, 3]
+    q: uint256[3] = [11, 12, x]
+    self.ta = p if b else q
+    return self.ta[0] + self.ta[1] * 16 + self.ta[2] * 256
+
+@external
+def set_map(b: bool, k: uint256, p: uint256[3], x: uint256) -> uint256:
+    q: uint256[3] = [x, 5, 6]
+    self.ma[k] = p if b else q
+    r: Bytes[64] = concat(convert(x, bytes32), b"!")
+    self.mb[k] = r if not b else b"short"
+    return self.ma[k][0] + self.ma[k][1] + len(self.mb[k])
+
+@external
+def set_dyn(b: bool, p: DynArray[uint256, 4], x: uint256) -> uint256:
+    q: DynArray[uint256, 4] = [x, x // 2]
+    self.dyn = p if b else q
+    return len(self.dyn)
+
+@external
+@pure
+def iterate(b: bool, p: uint256[3], x: uint256) -> uint256:
+    q: uint256[3] = [x, x // 2, 1]
+    r: uint256[3] = p if b else q
+    t: uint256 = 0
+    for v: uint256 in r:
+        t = (t * 3 + v) % 1000003
+    return t
+
+@external
+@pure
+def iterate_dyn(b: bool, p: DynArray[uint256, 4], x: uint256) -> uint256:
+    q: DynArray[uint256, 4] = [x, 1, 2]
+    t: uint256 = 0
+    for v: uint256 in (p if b else q):
+        t = (t * 3 + v) % 1000003
+    return t
+
+@external
+@pure
+def pass_on(b: bool, p: uint256[3], x: uint256) -> uint256:
+    q: uint256[3] = [x, 1, 2]
+    return self._sum(p if b else q) % 1000003
+
+@external
+@pure
+def pass_on_bytes(b: bool, p: Bytes[64], x: uint256) -> uint256:
+    q: Bytes[64] = concat(convert(x, bytes32), b"q")
+    return self._blen(p if b else q)
+''', prio=0)
+
 _add("overflow_paths", '''
 @external
 @pure
